@@ -306,6 +306,11 @@ func (call *mxCall) run() *mxObs {
 		default:
 			sr.Compression = call.RespComp
 		}
+		if sr.Compression == "" {
+			// a well-behaved backend that does not compress does not flag frames as compressed
+			// either (flagged frames without a declared compression are C03's / C09's alphabet)
+			sr.FrameComp = nil
+		}
 		rep := &world.Reply{ContentLength: -1, ReturnAfter: -1, DeclaredTrailers: call.DeclTrailers}
 		if call.Mutate != nil {
 			call.Mutate(sr, rep)
